@@ -1,5 +1,19 @@
 """C11 — merging images by offset: pewlib.process.register.overlap_arrays / overlap_structured_arrays
-against PewModel/Overlap.lean (mechanism `mech`, specification `spec`)."""
+against PewModel/Overlap.lean (mechanism `mech`, specification `spec`).
+
+Three legs per case:
+* the implementation against the Lean specification and the Lean mechanism (driver ops c11.overlap / c11.structuredD);
+  structured cases carry a dtype per field (float64 by default; float32 / int64 and the same name with two dtypes in a
+  part of the cases): the model returns the exception class or the cast pixels (`overlapStructuredD`);
+* "inputs are left unmodified": a snapshot of every input array (and of the buffer a non-contiguous view lives in, and of
+  the offsets container) taken before the call and compared after it; inputs are C-contiguous, read-only, strided views
+  into a larger buffer, Fortran-ordered or reversed views.  This clause is backed by the snapshot only (no theorem: the
+  Lean model is functional);
+* a metamorphic leg, implementation against implementation (case key "meta"; every case of <= 4 inputs in the thorough
+  tier, a quarter of them in the quick tier): the same call with a common translation added to every offset
+  (theorem overlap_translation_invariant), with every permutation of the (array, offset) pairs for mean / sum (theorem
+  overlap_perm_invariant), and for replace the last-writer relation of theorem overlap_replace_last_writer."""
+import itertools
 import math
 import sys
 from fractions import Fraction
@@ -8,6 +22,11 @@ import numpy as np
 
 from harness import core
 from harness.core import Prop, outcome, orat, unrat
+
+
+# whether "the same field name with two dtypes" is treated as inside the property's quantifier (then the ValueError is a
+# violation of "does the same per field over the union of the inputs' field names"); the maintainer decides, see notes/D12.md
+DTYPE_CLASH_IN_SCOPE = False
 
 
 def fhex(v) -> str:
@@ -30,9 +49,75 @@ def val(x):
     return None if x is None else float(Fraction(x[0], x[1]))
 
 
+LAYOUTS = ["c", "ro", "strided", "f", "rev"]
+NPDT = {"f8": np.float64, "f4": np.float32, "i8": np.int64}
+
+
+def lay_out(arr, layout):
+    """the same values in another memory layout; returns (array handed to pewlib, buffer it lives in)"""
+    if layout == "ro":
+        arr = arr.copy()
+        arr.flags.writeable = False
+        return arr, arr
+    if layout == "strided":  # every second element of the last axis of a larger buffer (sentinels between)
+        base = np.empty(arr.shape[:-1] + (2 * arr.shape[-1],), dtype=arr.dtype)
+        base.view(np.uint8)[...] = 0x5A
+        view = base[..., ::2]
+        view[...] = arr
+        return view, base
+    if layout == "f":
+        arr = np.asfortranarray(arr)
+        return arr, arr
+    if layout == "rev":  # a view with a negative stride on the first axis
+        base = arr[::-1].copy()
+        return base[::-1], base
+    return arr, arr
+
+
 def to_np(a, ndim):
     arr = np.array([math.nan if v is None else v / 4 for v in a["data"]], dtype=np.float64)
     return arr.reshape(a["shape"])
+
+
+def make_offsets(case):
+    """the offsets container pewlib receives: tuples (default), lists, int64 arrays, read-only int64 arrays"""
+    kind = case.get("offs_kind", "tuple")
+    offs = [a["off"] for a in case["arrays"]]
+    if kind == "list":
+        return [list(o) for o in offs]
+    if kind in ("ndarray", "ndarray-ro"):
+        out = [np.array(o, dtype=np.int64) for o in offs]
+        if kind == "ndarray-ro":
+            for o in out:
+                o.flags.writeable = False
+        return out
+    return [tuple(o) for o in offs]
+
+
+def exc_class(e):
+    """exception -> its public built-in base (NumPy's UFuncTypeError is a TypeError)"""
+    for cls in (ValueError, TypeError, IndexError, KeyError, MemoryError):
+        if isinstance(e, cls):
+            return cls.__name__
+    return type(e).__name__
+
+
+def canon_px(dt, j):
+    """driver pixel (null | [num, den] | "undef") -> canonical token in dtype dt"""
+    if j == "undef":
+        return "undef"
+    q = unrat(j)
+    if q is None:
+        return "nan"
+    if dt == "i8":
+        return str(int(q))
+    if dt == "f4":
+        return fhex(float(np.float32(float(q))))
+    return fhex(float(q))
+
+
+def impl_px(dt, v):
+    return str(int(v)) if dt == "i8" else fhex(float(v))
 
 
 def enc_data(data):
@@ -44,10 +129,25 @@ class C11(Prop):
     anchored = ["src/pewlib/process/register.py"]
     cases = {"quick": 400, "thorough": 12000}
     rule = ("random lists of 1..6 arrays (1-3 D, sides 1..4, offsets -5..5, dyadic values k/4, NaNs incl. whole arrays), "
-            "fills NaN/0/finite, three modes, plain and structured; non-trivial = some pixel receives >=2 contributions, "
+            "fills NaN/0/finite, three modes, plain and structured; inputs C-contiguous, read-only, strided views, Fortran "
+            "order, reversed views; offsets as tuples / lists / int64 arrays; structured: float64 fields, and in a fifth of "
+            "the cases float32 / int64 fields, in a tenth the same name with two dtypes; metamorphic leg (translation, all "
+            "permutations of <= 4 inputs for mean/sum, last writer for replace) on every case of <= 4 inputs in the "
+            "thorough tier and a quarter of them in the quick tier; non-trivial = some pixel receives >=2 contributions, "
             "or a NaN-only covered pixel, or an uncovered pixel; distinct by canonical case hash")
     trusted = ["np.nansum/np.full/boolean-mask assignment as documented; float sums of the generated dyadic values are exact, "
-               "the mean's single division is correctly rounded (compared with float(Fraction))"]
+               "the mean's single division is correctly rounded (compared with float(Fraction)); float32 fields: the division is "
+               "done in float64 and rounded once more to float32 (canonicaliser: float32(float64(q)))",
+               "'inputs are left unmodified' is backed by the harness snapshot only (bytes of every input and of the buffer "
+               "behind a view before and after the call); the Lean model is functional and has no theorem about it"]
+    assumptions = ["structured inputs in which one field name carries two dtypes make overlap_structured_arrays raise ValueError "
+                   "(np.empty on a dtype with a repeated name); the property text does not speak of dtypes, such a case is "
+                   "compared with the model's error result and counted as hypothesis-excluded for the specification "
+                   "(DTYPE_CLASH_IN_SCOPE = False; see notes/D12.md)",
+                   "integer fields: a NaN cast to int64 is platform dependent (NumPy warns); such pixels are marked undefined by "
+                   "the model and not compared; integer canvases raise in mean mode and with a NaN fill in mean/sum mode "
+                   "(model: TypeError / ValueError): which exception is raised is an accident of the NumPy calls used, such a "
+                   "case is counted as undetermined and not compared"]
 
     def gen_array(self, rng, ndim, allnan=False):
         shape = [rng.randint(1, 4) for _ in range(ndim)]
@@ -65,14 +165,29 @@ class C11(Prop):
         case = {"kind": "structured" if structured else "plain", "ndim": ndim, "mode": mode, "fill": fill}
         if structured:
             names = ["A", "B", "C"]
+            r = rng.random()
+            if r < 0.8:
+                dts = {nm: "f8" for nm in names}
+            else:
+                dts = {nm: rng.choice(["f8", "f4", "i8", "i8"]) for nm in names}
+            clash = rng.random() < 0.1
             arrs = []
             for _ in range(n):
                 a = self.gen_array(rng, ndim)
                 k = rng.randint(1, 3)
                 fields = rng.sample(names, k)
                 size = len(a["data"])
-                a["fields"] = [{"name": f, "data": [None if rng.random() < 0.15 else rng.randint(-20, 20) for _ in range(size)]}
-                               for f in fields]
+                fs = []
+                for f in fields:
+                    dt = dts[f]
+                    if clash and rng.random() < 0.4:
+                        dt = rng.choice(["f8", "f4", "i8"])
+                    if dt == "i8":  # integers (multiples of 4 quarters), no NaN
+                        data = [4 * rng.randint(-5, 5) for _ in range(size)]
+                    else:
+                        data = [None if rng.random() < 0.15 else rng.randint(-20, 20) for _ in range(size)]
+                    fs.append({"name": f, "dtype": dt, "data": data})
+                a["fields"] = fs
                 del a["data"]
                 arrs.append(a)
             case["arrays"] = arrs
@@ -84,6 +199,15 @@ class C11(Prop):
                      if big else rng.randint(-1000, 1000) for _ in range(ndim)]
                 for a in case["arrays"]:
                     a["off"] = [o + d for o, d in zip(a["off"], t)]
+        # memory layout of every input and the container of the offsets
+        for a in case["arrays"]:
+            if rng.random() < 0.35:
+                a["layout"] = rng.choice(LAYOUTS[1:])
+        if rng.random() < 0.3:
+            case["offs_kind"] = rng.choice(["list", "ndarray", "ndarray-ro"])
+        # metamorphic leg
+        if n <= 4 and (tier == "thorough" or rng.random() < 0.25):
+            case["meta"] = {"t": [rng.choice([rng.randint(-9, 9), rng.randint(-10 ** 6, 10 ** 6)]) for _ in range(ndim)]}
         return case
 
     def many(self, n, mode, fill):
@@ -100,14 +224,80 @@ class C11(Prop):
         ones = {"off": [0, 0], "shape": [2, 2], "data": [4, 4, 4, 4]}
         twos = {"off": [1, 1], "shape": [2, 2], "data": [8, 8, 8, 8]}
         nanarr = {"off": [1, 1], "shape": [2, 2], "data": [None, 8, 8, None]}
+        meta = {"t": [7, -3]}
         for mode in ("replace", "mean", "sum"):
             for fill in (None, 0, 40):
-                yield {"kind": "plain", "ndim": 2, "mode": mode, "fill": fill, "arrays": [ones, twos]}
-                yield {"kind": "plain", "ndim": 2, "mode": mode, "fill": fill, "arrays": [ones, nanarr]}
+                yield {"kind": "plain", "ndim": 2, "mode": mode, "fill": fill, "arrays": [ones, twos], "meta": meta}
+                yield {"kind": "plain", "ndim": 2, "mode": mode, "fill": fill, "arrays": [ones, nanarr], "meta": meta}
                 yield {"kind": "plain", "ndim": 2, "mode": mode, "fill": fill, "arrays": [nanarr]}
-                yield {"kind": "plain", "ndim": 1, "mode": mode, "fill": fill,
+                yield {"kind": "plain", "ndim": 1, "mode": mode, "fill": fill, "meta": {"t": [-100]},
                        "arrays": [{"off": [3], "shape": [1], "data": [5]}, {"off": [-3], "shape": [2], "data": [None, 7]},
                                   {"off": [3], "shape": [1], "data": [9]}]}
+                # every layout of the two inputs
+                for la in LAYOUTS[1:]:
+                    yield {"kind": "plain", "ndim": 2, "mode": mode, "fill": fill, "offs_kind": "ndarray-ro",
+                           "arrays": [{**ones, "layout": la}, {**nanarr, "layout": la}]}
+        # structured: the same name with two dtypes; integer and float32 fields, first array with / without the field
+        fa = lambda dt, data: {"name": "A", "dtype": dt, "data": data}
+        fb = lambda dt, data: {"name": "B", "dtype": dt, "data": data}
+        base = {"off": [0], "shape": [2]}
+        nxt = {"off": [1], "shape": [2]}
+        for mode in ("replace", "mean", "sum"):
+            for fill in (None, 0, 10):
+                st = {"kind": "structured", "ndim": 1, "mode": mode, "fill": fill}
+                yield {**st, "arrays": [{**base, "fields": [fa("f8", [4, 8])]}, {**nxt, "fields": [fa("f4", [12, 16])]}]}
+                yield {**st, "arrays": [{**base, "fields": [fa("f8", [4, 8])]}, {**nxt, "fields": [fa("i8", [12, 16])]}]}
+                yield {**st, "arrays": [{**base, "fields": [fa("f8", [4, None])]}, {**nxt, "fields": [fb("i8", [12, 16])]}]}
+                yield {**st, "arrays": [{**base, "fields": [fb("i8", [12, 16])]}, {**nxt, "fields": [fa("f8", [4, None])]}]}
+                yield {**st, "arrays": [{**base, "fields": [fb("i8", [12, 16])]}, {**nxt, "fields": [fb("i8", [-4, 8])]}]}
+                yield {**st, "arrays": [{**base, "fields": [fb("f4", [13, None])]}, {**nxt, "fields": [fb("f4", [-4, 8])]},
+                                        {**nxt, "fields": [fb("f4", [1, 8]), fa("f8", [1, 2])]}]}
+
+    # ------------------------------------------------------------------ evaluation
+    def run_plain(self, register, case, arrs_desc, fill, mode, offs_kind=None, layouts=True):
+        """one call of overlap_arrays; returns (result dict, inputs_unchanged)"""
+        ndim = case["ndim"]
+        pairs = [lay_out(to_np(a, ndim), a.get("layout", "c") if layouts else "c") for a in arrs_desc]
+        arrays = [p[0] for p in pairs]
+        offsets = make_offsets({"arrays": arrs_desc, "offs_kind": offs_kind or "tuple"})
+        before = [b.tobytes() for _, b in pairs]
+        shapes = [(a.shape, a.strides, a.dtype.str) for a in arrays]
+        offs_before = [[int(v) for v in o] for o in offsets]
+        try:
+            res = register.overlap_arrays(arrays, offsets, fill=fill, mode=mode)
+            out = {"shape": list(res.shape), "data": [fhex(v) for v in res.ravel()]}
+        except Exception as e:  # the quantified inputs never raise
+            out = {"raises": type(e).__name__, "msg": str(e)[:200]}
+        unchanged = (all(b.tobytes() == x for (_, b), x in zip(pairs, before))
+                     and shapes == [(a.shape, a.strides, a.dtype.str) for a in arrays]
+                     and [[int(v) for v in o] for o in offsets] == offs_before and len(offsets) == len(arrs_desc))
+        return out, unchanged
+
+    def metamorphic(self, register, case, base, fill):
+        """implementation against implementation; every entry must come out True"""
+        arrs, mode, t = case["arrays"], case["mode"], case["meta"]["t"]
+        res = {}
+        moved = [{**a, "off": [o + d for o, d in zip(a["off"], t)]} for a in arrs]
+        res["translation"] = self.run_plain(register, case, moved, fill, mode, layouts=False)[0] == base
+        if mode != "replace" and len(arrs) <= 4:
+            res["permutations"] = all(self.run_plain(register, case, list(p), fill, mode, layouts=False)[0] == base
+                                      for p in itertools.permutations(arrs))
+        if mode == "replace" and "shape" in base:
+            last = arrs[-1]
+            blank = {**last, "data": [None] * len(last["data"])}
+            other = self.run_plain(register, case, arrs[:-1] + [blank], fill, mode, layouts=False)[0]
+            ok = other.get("shape") == base["shape"]
+            if ok:
+                lo = [min(a["off"][k] for a in arrs) for k in range(case["ndim"])]
+                exp = np.array(other["data"], dtype=object).reshape(base["shape"])
+                sl = tuple(slice(o - m, o - m + s) for o, m, s in zip(last["off"], lo, last["shape"]))
+                vals = np.array([None if v is None else fhex(v / 4) for v in last["data"]], dtype=object).reshape(last["shape"])
+                sub = exp[sl]
+                mask = np.array([v is not None for v in last["data"]]).reshape(last["shape"])
+                sub[mask] = vals[mask]
+                ok = list(exp.ravel()) == base["data"]
+            res["last_writer"] = ok
+        return res
 
     def evaluate(self, case, ctx):
         from pewlib.process import register
@@ -128,21 +318,24 @@ class C11(Prop):
         offsets = [tuple(a["off"]) for a in case["arrays"]]
         feats = {f"ndim{ndim}", f"mode:{mode}", "fill:" + ("nan" if case["fill"] is None else "zero" if case["fill"] == 0 else "finite"),
                  f"n{len(case['arrays'])}", case["kind"]}
+        for a in case["arrays"]:
+            if a.get("layout", "c") != "c":
+                feats.add("layout:" + a["layout"])
+        if case.get("offs_kind"):
+            feats.add("offsets:" + case["offs_kind"])
         if case["kind"] == "plain":
             arrays = [to_np(a, ndim) for a in case["arrays"]]
-            before = [a.copy() for a in arrays]
-            offs_before = [tuple(o) for o in offsets]
-            try:
-                res = register.overlap_arrays(arrays, offsets, fill=fill, mode=mode)
-                impl = {"shape": list(res.shape), "data": [fhex(v) for v in res.ravel()]}
-            except Exception as e:  # the quantified inputs never raise
-                impl = {"raises": type(e).__name__, "msg": str(e)[:200]}
-            impl["inputs_unchanged"] = all(np.array_equal(x, y, equal_nan=True) for x, y in zip(arrays, before)) \
-                and [tuple(o) for o in offsets] == offs_before
+            impl, unchanged = self.run_plain(register, case, case["arrays"], fill, mode, case.get("offs_kind"))
+            base = dict(impl)
+            impl["inputs_unchanged"] = unchanged
             rep = ctx.driver.call("c11.overlap", mode=mode, fill=dfill, ndim=ndim,
                                   arrays=[{"off": a["off"], "shape": a["shape"], "data": enc_data(a["data"])} for a in case["arrays"]])
             model = {"shape": rep["shape"], "data": [qhex(v) for v in rep["model"]], "inputs_unchanged": True}
             spec = {"shape": rep["shape"], "data": [qhex(v) for v in rep["spec"]], "inputs_unchanged": True}
+            if case.get("meta"):
+                impl["meta"] = self.metamorphic(register, case, base, fill)
+                model["meta"] = spec["meta"] = {k: True for k in impl["meta"]}
+                feats |= {"meta:" + k for k in impl["meta"]}
             # feature classification from the driver's own per-pixel contributions is not available; use numpy counts
             cover = np.zeros(rep["shape"], dtype=int)
             cover_any = np.zeros(rep["shape"], dtype=int)
@@ -167,35 +360,122 @@ class C11(Prop):
                 feats.add("contributions>255" if len(case["arrays"]) < 60000 else "contributions>=65535")
             nontrivial = {"overlap>=2", "nan-only-pixel", "uncovered-pixel"} & feats
             return outcome(impl, model, spec, features=feats if nontrivial else [])
-        else:
-            arrays = []
-            for a in case["arrays"]:
-                dt = [(f["name"], np.float64) for f in a["fields"]]
-                arr = np.empty(a["shape"], dtype=dt)
-                for f in a["fields"]:
-                    arr[f["name"]] = np.array([math.nan if v is None else v / 4 for v in f["data"]]).reshape(a["shape"])
-                arrays.append(arr)
-            before = [a.copy() for a in arrays]
+        return self.eval_structured(register, case, ctx, fill, dfill, feats)
+
+    def eval_structured(self, register, case, ctx, fill, dfill, feats):
+        import warnings
+
+        ndim, mode = case["ndim"], case["mode"]
+        pairs = []
+        for a in case["arrays"]:
+            dt = [(f["name"], NPDT[f.get("dtype", "f8")]) for f in a["fields"]]
+            arr = np.empty(a["shape"], dtype=dt)
+            for f in a["fields"]:
+                vals = np.array([math.nan if v is None else v / 4 for v in f["data"]]).reshape(a["shape"])
+                arr[f["name"]] = vals  # exact: generated values are representable in the field's dtype
+            pairs.append(lay_out(arr, a.get("layout", "c")))
+        arrays = [p[0] for p in pairs]
+        offsets = make_offsets(case)
+        before = [b.tobytes() for _, b in pairs]
+        offs_before = [[int(v) for v in o] for o in offsets]
+
+        def call(offs):
             try:
-                res = register.overlap_structured_arrays(arrays, offsets, fill=fill, mode=mode)
-                impl_fields = [{"name": n, "shape": list(res.shape), "data": [fhex(v) for v in res[n].ravel()]} for n in res.dtype.names]
+                with warnings.catch_warnings():
+                    warnings.simplefilter("ignore", RuntimeWarning)  # NaN cast to an integer field (pixel not compared)
+                    res = register.overlap_structured_arrays(arrays, offs, fill=fill, mode=mode)
+                return {"fields": [{"name": n, "dtype": res.dtype[n].str.lstrip("<=|"), "shape": list(res.shape),
+                                    "data": [impl_px(res.dtype[n].str.lstrip("<=|"), v) for v in res[n].ravel()]}
+                                   for n in res.dtype.names]}
             except Exception as e:
-                impl_fields = [{"raises": type(e).__name__, "msg": str(e)[:200]}]
-            unchanged = all(x.tobytes() == y.tobytes() for x, y in zip(arrays, before))
-            rep = ctx.driver.call("c11.structured", mode=mode, fill=dfill, ndim=ndim,
-                                  arrays=[{"off": a["off"], "shape": a["shape"],
-                                           "fields": [{"name": f["name"], "data": enc_data(f["data"])} for f in a["fields"]]}
-                                          for a in case["arrays"]])
-            conv = lambda fs: [{"name": f["name"], "shape": f["shape"], "data": [qhex(v) for v in f["data"]]} for f in fs]
-            model, spec = conv(rep["model"]), conv(rep["spec"])
-            # the property speaks of the union of field names, not of their order
-            key = lambda fs: sorted(fs, key=lambda f: f.get("name", ""))
-            impl = {"fields": impl_fields, "inputs_unchanged": unchanged}
-            names = {f["name"] for a in case["arrays"] for f in a["fields"]}
-            feats.add("disjoint-fields" if any(set(f["name"] for f in a["fields"]) != names for a in case["arrays"]) else "same-fields")
-            return outcome(impl, {"fields": model, "inputs_unchanged": True}, {"fields": key(spec), "inputs_unchanged": True},
-                           spec_ok=(core.canon(key(impl_fields)) == core.canon(key(spec)) and unchanged),
-                           features=feats)
+                return {"raises": exc_class(e), "msg": str(e)[:200]}
+
+        got = call(offsets)
+        unchanged = (all(b.tobytes() == x for (_, b), x in zip(pairs, before))
+                     and [[int(v) for v in o] for o in offsets] == offs_before)
+        rep = ctx.driver.call("c11.structuredD", mode=mode, fill=dfill, ndim=ndim,
+                              arrays=[{"off": a["off"], "shape": a["shape"],
+                                       "fields": [{"name": f["name"], "dtype": f.get("dtype", "f8"), "data": enc_data(f["data"])}
+                                                  for f in a["fields"]]}
+                                      for a in case["arrays"]])
+
+        def conv(r):
+            if r is None:
+                return None
+            if isinstance(r, dict) and "raises" in r:
+                return {"raises": r["raises"]}
+            fs = r["fields"] if isinstance(r, dict) else r
+            return {"fields": [{"name": f["name"], "dtype": f["dtype"], "shape": f["shape"],
+                                "data": [canon_px(f["dtype"], v) for v in f["data"]]} for f in fs]}
+
+        model, dspec, plain = conv(rep["model"]), conv(rep["spec"]), conv(rep["plainSpec"])
+        # pixels the model marks undefined (NaN cast to an integer) are not compared
+        def mask(g):
+            if "fields" in g and "fields" in model and len(g["fields"]) == len(model["fields"]):
+                for gf, mf in zip(g["fields"], model["fields"]):
+                    if gf["name"] == mf["name"] and len(gf["data"]) == len(mf["data"]):
+                        gf["data"] = ["undef" if m == "undef" else x for x, m in zip(gf["data"], mf["data"])]
+                        if "undef" in mf["data"]:
+                            feats.add("dtype:nan-cast-to-int-masked")
+            return g
+
+        got = mask(got)
+        impl_cmp = {k: v for k, v in got.items() if k != "msg"}
+        # the property speaks of the union of field names, not of their order
+        key = lambda r: {"fields": sorted(r["fields"], key=lambda f: f["name"])} if r and "fields" in r else r
+        dts = {f.get("dtype", "f8") for a in case["arrays"] for f in a["fields"]}
+        names = {f["name"] for a in case["arrays"] for f in a["fields"]}
+        feats.add("disjoint-fields" if any(set(f["name"] for f in a["fields"]) != names for a in case["arrays"]) else "same-fields")
+        by_name = {}
+        for a in case["arrays"]:
+            for f in a["fields"]:
+                by_name.setdefault(f["name"], set()).add(f.get("dtype", "f8"))
+        clash = any(len(v) > 1 for v in by_name.values())
+        hyp = True
+        if plain is not None:
+            spec = plain  # all float64: the right-hand side of theorem structured_whole
+        else:
+            feats |= {"dtype:" + d for d in dts}
+            spec = dspec
+            if clash:
+                feats.add("dtype:same-name-two-dtypes")
+            if "raises" in model:
+                if not clash:
+                    # an integer canvas (mean mode, or NaN fill with mean/sum): which exception, and whether any, is an
+                    # accident of the NumPy calls used, nothing the property speaks of: recorded, not compared
+                    return outcome({"result": impl_cmp}, {"result": model}, {"result": dspec}, spec_ok=True, model_ok=True,
+                                   undetermined=True, hyp=False,
+                                   features=feats | {"dtype:integer-canvas-raises-" + model["raises"] + "(not compared)"})
+                feats.add("dtype:clash-raises-" + model["raises"])
+                if DTYPE_CLASH_IN_SCOPE:
+                    spec = {"expected": "one merged field per name, no exception"}
+                else:
+                    hyp = False  # no statement of the property about this call; the model's error is compared
+        meta_i = meta_s = None
+        if case.get("meta") and "fields" in got:
+            t = case["meta"]["t"]
+            moved = [tuple(o + d for o, d in zip(a["off"], t)) for a in case["arrays"]]
+            second = mask(call(moved))
+            meta_i = {"translation": {k: v for k, v in second.items() if k != "msg"} == impl_cmp}
+            meta_s = {"translation": True}
+            feats.add("meta:translation")
+        impl = {"result": impl_cmp, "inputs_unchanged": unchanged, "meta": meta_i}
+        spec_ok = unchanged and (meta_i == meta_s) and (not hyp or core.canon(key(impl_cmp)) == core.canon(key(spec)))
+        model_ok = unchanged and core.canon(impl_cmp) == core.canon(model)
+        return outcome(impl, {"result": model, "inputs_unchanged": True, "meta": meta_s},
+                       {"result": key(spec), "inputs_unchanged": True, "meta": meta_s},
+                       spec_ok=spec_ok, model_ok=model_ok, hyp=hyp, features=feats)
+
+    def known(self, case, out):
+        # only reachable with DTYPE_CLASH_IN_SCOPE = True: the ValueError on one field name with two dtypes
+        if case.get("kind") == "structured":
+            by_name = {}
+            for a in case["arrays"]:
+                for f in a["fields"]:
+                    by_name.setdefault(f["name"], set()).add(f.get("dtype", "f8"))
+            if any(len(v) > 1 for v in by_name.values()):
+                return "C11-structured-dtype-clash"
+        return None
 
     def shrink(self, case):
         arrs = case["arrays"]
